@@ -20,8 +20,8 @@ Definition dec64 (x : N) : N := if x =? 0 then W64 - 1 else x - 1.
 (* ------------------------------------------------------------------ *)
 (* ConnectedBitmask                                                   *)
 (* ------------------------------------------------------------------ *)
-Definition run := (N * N)%type.
-Definition cbm := list run.
+Notation run := (N * N)%type (only parsing).
+Notation cbm := (list (N * N)) (only parsing).
 
 Definition c_make (mn mx : N) : cbm := [(mn, mx)].
 
@@ -134,42 +134,39 @@ Fixpoint c_and_go (fuel : nat) (a b : cbm) : cbm :=
 Definition c_and (a b : cbm) : cbm := c_and_go (length a + length b + 1) a b.
 
 (* XorCopy: the heads of [a] and [b] are the loop-local copies `a`, `b`, which
-   the Go code trims (`a.min = b.max+1`) while walking. [kf_xor_adjacent] = true is
-   the code before the "fix:" commit (pieces appended as they come, so touching
-   pieces stay separate runs); false = pieces are joined when they touch. *)
-Definition c_push (fix_adj : bool) (out : cbm) (n : run) : cbm :=
-  (* [out] is kept reversed *)
-  match out with
-  | (pmn, pmx) :: o' => if fix_adj && (pmx + 1 =? fst n) then (pmn, snd n) :: o' else n :: out
-  | [] => [n]
-  end.
-Fixpoint c_pushall (fix_adj : bool) (out : cbm) (l : cbm) : cbm :=
-  match l with [] => out | n :: r => c_pushall fix_adj (c_push fix_adj out n) r end.
-
-Fixpoint c_xor_go (fix_adj : bool) (fuel : nat) (out : cbm) (a b : cbm) : cbm :=
+   the Go code trims (`a.min = b.max+1`) while walking.  [c_xor_raw] lists the
+   pieces in the order the Go code appends them; [c_join] is the `add` closure
+   of the "fix:" commit 6a40c2d, which joins a piece with the previous run when
+   they touch.  Before that commit the result was [c_xor_raw] itself. *)
+Fixpoint c_xor_raw (fuel : nat) (a b : cbm) : cbm :=
   match fuel with
-  | O => rev out
+  | O => []
   | S f =>
       match a, b with
-      | [], _ => rev (c_pushall fix_adj out b)
-      | _, [] => rev (c_pushall fix_adj out a)
+      | [], _ => b
+      | _, [] => a
       | (amn, amx) :: ar, (bmn, bmx) :: br =>
-          if amx <? bmn then c_xor_go fix_adj f (c_push fix_adj out (amn, amx)) ar b
-          else if bmx <? amn then c_xor_go fix_adj f (c_push fix_adj out (bmn, bmx)) a br
+          if amx <? bmn then (amn, amx) :: c_xor_raw f ar b
+          else if bmx <? amn then (bmn, bmx) :: c_xor_raw f a br
           else
-            let out1 :=
-              if amn =? bmn then out
-              else if amn <? bmn then c_push fix_adj out (amn, bmn - 1)
-              else c_push fix_adj out (bmn, amn - 1) in
-            if amx =? bmx then c_xor_go fix_adj f out1 ar br
-            else if bmx <? amx then c_xor_go fix_adj f out1 ((bmx + 1, amx) :: ar) br
-            else c_xor_go fix_adj f out1 ar ((amx + 1, bmx) :: br)
+            (if amn =? bmn then []
+             else if amn <? bmn then [(amn, bmn - 1)] else [(bmn, amn - 1)])
+            ++ (if amx =? bmx then c_xor_raw f ar br
+                else if bmx <? amx then c_xor_raw f ((bmx + 1, amx) :: ar) br
+                else c_xor_raw f ar ((amx + 1, bmx) :: br))
       end
   end.
-Definition c_xor_gen (fix_adj : bool) (a b : cbm) : cbm :=
-  c_xor_go fix_adj (length a + length b + 1) [] a b.
-(* the tree as it is (after the fix: commit) *)
-Definition c_xor := c_xor_gen true.
+Fixpoint c_join (l : cbm) : cbm :=
+  match l with
+  | [] => []
+  | (mn, mx) :: r =>
+      match c_join r with
+      | (mn2, mx2) :: r2 => if mx + 1 =? mn2 then (mn, mx2) :: r2 else (mn, mx) :: (mn2, mx2) :: r2
+      | [] => [(mn, mx)]
+      end
+  end.
+Definition c_xor_prefix (a b : cbm) : cbm := c_xor_raw (length a + length b + 1) a b.
+Definition c_xor (a b : cbm) : cbm := c_join (c_xor_prefix a b).
 
 Fixpoint c_sub_go (fuel : nat) (a b : cbm) : cbm :=
   match fuel with
@@ -238,7 +235,7 @@ Definition c_extract (l : cbm) (b : N) : cbm * bool :=
 (* ------------------------------------------------------------------ *)
 (* word lists: LongBitmask and ShortBitmask                           *)
 (* ------------------------------------------------------------------ *)
-Definition wl := list N.
+Notation wl := (list N) (only parsing).
 
 Definition w_get (l : wl) (i : nat) : N := nth i l 0.
 Definition w_idx (b : N) : nat := N.to_nat (b / 64).
@@ -383,7 +380,7 @@ Definition s_extract (l : wl) (b : N) : wl * bool :=
 (* ------------------------------------------------------------------ *)
 (* The set model and the abstraction functions                        *)
 (* ------------------------------------------------------------------ *)
-Definition bset := N -> bool.
+Notation bset := (N -> bool) (only parsing).
 Definition mem_c (l : cbm) : bset :=
   fun i => existsb (fun e => (fst e <=? i) && (i <=? snd e)) l.
 Definition mem_w (l : wl) : bset :=
